@@ -227,6 +227,23 @@ def run_public(spec, acc):
     defs = [d for k, d in enumerate(defs) if k % spec["n"] == spec["i"]]
     n_payloads = 15 if spec["tier"] == "quick" else 1000
     src_dec = NMEA2000Decoder()
+    # First contact of this process with the library: traffic of PGN numbers that differ from the shard's fast-packet PGNs
+    # only in the upper bits (p and p +/- 65536 / 131072, e.g. single-frame 65280 and fast 130816; the identifier carries
+    # 18 PGN bits). Whatever the library learns from them must not decide how the fast-packet PGNs are treated.
+    warm = NMEA2000Decoder()
+    warm_enc = NMEA2000Encoder()
+    for d in defs:
+        for alias in (d.pgn ^ 0x10000, d.pgn ^ 0x20000, d.pgn ^ 0x30000):
+            for a_ in dbx.by_pgn.get(alias, [])[:1]:
+                acc.count("alias_pgns_seen_first")
+                try:
+                    warm.decode_tcp(wire.ebyte_frame(wire.can_id(3, alias, 9, 255), bytes(range(1, 9))))
+                except Exception:  # noqa: BLE001
+                    pass
+                try:
+                    warm_enc.encode_ebyte(NMEA2000Message(PGN=alias, id=a_.id, priority=3, source=9, destination=255, fields=[]))
+                except Exception:  # noqa: BLE001
+                    pass
     for d in defs:
         nb = d.length if d.length is not None else (d.total_bits() + 7) // 8
         for fmt in FORMATS:
